@@ -22,6 +22,10 @@ import (
 
 func (dec *Decoder) readUnsafeBytes() []byte {
 	bytes := dec.UnsafeNext(dec.ReadInt())
+	if dec.head == dec.tail && dec.reader != nil {
+		// Skip is about to refill the window that bytes points into.
+		bytes = append([]byte(nil), bytes...)
+	}
 	dec.Skip()
 	return bytes
 }
